@@ -210,6 +210,8 @@ func RunOne(t *testing.T, c *Check, p *Plan, idx int) (*RunOut, *Result) {
 		for _, rec := range r.Canon {
 			o.Hist = append(o.Hist, rec.String())
 		}
+		o.Hist = append(o.Hist, "--- decision trace ---")
+		o.Hist = append(o.Hist, r.Trace...)
 	}
 	return o, r
 }
